@@ -120,12 +120,29 @@ ADD6 = {
  "C18": " No size guard compares a length narrowed to 8 or 16 bits unless the length is proven to fit (an input of size + k*2^16 bytes would pass and be parsed from its first bytes).",
 }
 
+# clauses added with the rules of round 7
+ADD7 = {
+ "C01": " Every queued UDP datagram is a record and buffer of its own (a burst is delivered datagram by datagram).",
+ "C03": " The shared peer table is keyed by the configured dial address itself (two backends that differ only in the network never collapse into one peer); halfCloser, evaluated on chains of concrete connection types (tls over tcp, layer4.Connection over tls, NetConn() wrappers, udp), returns the first connection of the chain that offers CloseWrite.",
+ "C05": " Every matcher of a set runs between its own freeze and unfreeze (the buffer bound holds only for frozen matchers).",
+ "C06": " The http matcher's request-line test, evaluated on prefixes and complete lines, never says no before the first line is complete; a connection variable that matcher code sets is read back by matcher code only in the reviewed http case (no verdict from memory).",
+ "C07": " The alpn sub-matcher, evaluated on configured x offered protocol lists, matches exactly when an id is equal byte for byte (as crypto/tls compares them).",
+ "C10": " Every counted failure is forgotten again on every path of the forgetting goroutine.",
+ "C11": " The peer table key derives from the configured dial address; a Caddyfile option never replaces a health-check object an earlier option filled in.",
+ "C12": " While the header is awaited no read deadline is set on the connection itself, and with a timeout the deadline handed to NewConn is now + timeout.",
+ "C13": " A subroute in the wrapper's routes is compiled per connection with the handler's own next.",
+ "C14": " The clock matcher end to end: Provision evaluated on 12 configurations leaves the documented window (before 00:00:00 or empty = 24:00:00, reversed pairs swapped, malformed points fail) and Match in that state matches exactly inside it; the verdict tables run in the state the matcher's own Provision leaves.",
+ "C15": " After an accepted Caddyfile case the module's Provision is evaluated on the state the unmarshaller left and must not fail; nested Caddyfiles (servers, listener wrapper, subroute, tee, not, proxy lb_policy, tls policies) are evaluated through a model of the module registry.",
+ "C17": " The connection stays throttled after Handle returns (deferred closures evaluated); a datagram read in batch-sized pieces is delivered completely.",
+ "C18": " Winbox chunk sequences followed by further bytes are rejected (nothing behind the last chunk).",
+}
+
 checks = []
 for p in props:
     if p["id"] not in CLAIMS:
         continue
     tech, text, ref = CLAIMS[p["id"]]
-    text = text + ADD6.get(p["id"], "")
+    text = text + ADD6.get(p["id"], "") + ADD7.get(p["id"], "")
     checks.append({
         "property_id": p["id"],
         "quick_cmd": "./run.sh %s quick" % p["id"],
